@@ -124,6 +124,17 @@ Theorem C08_comment_group_rule : forall o left body right sp rest cs,
 Proof. intros. apply SC_comment; assumption. Qed.
 Print Assumptions C08_comment_group_rule.
 
+(** ... and its instance for "--" line comments, the form of the file-header directives
+    (atlas:txmode, atlas:nolint, atlas:sum, atlas:checkpoint): after "-- body\n" followed by the
+    white space [sp], the group is empty iff [sp ++ rest] starts with a newline (an empty line
+    follows the comment), else the comment joins the group of the statement that follows. *)
+Theorem C08_line_comment_rule : forall o body sp rest cs,
+  index_of (body ++ NL) NL = Some (length body) -> Spaces sp -> starts_space rest = false ->
+  SegC o (([45;45]%N ++ body ++ NL) ++ sp) rest cs
+       (if has_prefix (sp ++ rest) NL then [] else cs ++ [[45;45]%N ++ body ++ NL]).
+Proof. exact line_comment_rule. Qed.
+Print Assumptions C08_line_comment_rule.
+
 (** Line mapping and carriage returns (round 5): [FileReport.Line(Pos)] never panics on a reported
     [Pos] (any option set) and is 1 + the number of "\n" bytes before [Pos]; "\r" bytes are
     transparent - "\r\n" ends a line exactly once, a lone "\r" never starts a new line (an old-Mac
